@@ -24,7 +24,7 @@ structure Prov (T U : List Nat) (s : Sys) : Prop where
   adapters : ∀ e ∈ s.adapters, ∀ sv, e.2.span = some sv → SvOk T U sv
   threads : ∀ t, ThOk T U (s.th t)
   rxs : RingsOk T s.rxs
-  cyc : ∀ cs, s.cyc = some cs → RingsOk T cs.todo ∧ RingsOk T cs.kept ∧ ∀ c ∈ cs.buf, CmdOk T c
+  cyc : ∀ cs, s.cyc = some cs → RingsOk T cs.todo ∧ RingsOk T cs.kept ∧ (∀ c ∈ cs.buf, CmdOk T c) ∧ ∀ c ∈ cs.buf2, CmdOk T c
   coll : CollOk T s.coll
 
 /-! ### association lists -/
@@ -269,12 +269,12 @@ theorem Prov.register {T U : List Nat} {s s' : Sys} (h : Prov T U s) (t : Nat) (
       · cases hr
       · simp only [Option.some.injEq] at hr
         subst hr
-        obtain ⟨c1, c2, c3⟩ := h.cyc cs hc
+        obtain ⟨c1, c2, c3, c4⟩ := h.cyc cs hc
         refine ⟨h1.spans, h1.adapters, h1.threads, h1.rxs, ?_, h1.coll⟩
         intro cs' hcs'
         simp only [Option.some.injEq] at hcs'
         subst hcs'
-        refine ⟨c1, ?_, c3⟩
+        refine ⟨c1, ?_, c3, c4⟩
         intro e he
         simp only [List.mem_append, List.mem_singleton] at he
         rcases he with he | rfl
@@ -289,7 +289,7 @@ theorem Prov.ringOf {T U : List Nat} {s : Sys} (h : Prov T U s) {t : Nat} {r : R
   | some cs =>
     rw [hc] at hr
     dsimp only at hr
-    obtain ⟨h1, h2, _⟩ := h.cyc cs hc
+    obtain ⟨h1, h2, _, _⟩ := h.cyc cs hc
     cases ht : natGet cs.todo t with
     | some r' =>
       rw [ht] at hr
@@ -310,19 +310,19 @@ theorem Prov.setRing {T U : List Nat} {s : Sys} (h : Prov T U s) (t : Nat) (r : 
     exact ⟨h.spans, h.adapters, h.threads, h.rxs.natSet t r hr, (fun cs hcs => nomatch hcs), h.coll⟩
   | some cs =>
     dsimp only
-    obtain ⟨h1, h2, h3⟩ := h.cyc cs hc
+    obtain ⟨h1, h2, h3, h4⟩ := h.cyc cs hc
     split
     · refine ⟨h.spans, h.adapters, h.threads, h.rxs, ?_, h.coll⟩
       intro cs' hcs'
       simp only [Option.some.injEq] at hcs'
       subst hcs'
-      exact ⟨h1.natSet t r hr, h2, h3⟩
+      exact ⟨h1.natSet t r hr, h2, h3, h4⟩
     · split
       · refine ⟨h.spans, h.adapters, h.threads, h.rxs, ?_, h.coll⟩
         intro cs' hcs'
         simp only [Option.some.injEq] at hcs'
         subst hcs'
-        exact ⟨h1, h2.natSet t r hr, h3⟩
+        exact ⟨h1, h2.natSet t r hr, h3, h4⟩
       · exact h
 
 theorem Prov.sendCmd {T U : List Nat} {s : Sys} (h : Prov T U s) (t : Nat) (cmd : Cmd) (forced : Bool) (hc : CmdOk T cmd) :
